@@ -13,8 +13,6 @@ use crate::{
     composed::ArmorOptions,
     crypto::hash::HashAlgorithm,
     errors::{bail, ensure, ensure_eq, format_err, InvalidInputSnafu, Result},
-    line_writer::LineBreak,
-    normalize_lines::normalize_lines,
     packet::{
         Packet, PacketParser, PacketTrait, Signature, SignatureConfig, SignatureType, Subpacket,
         SubpacketData,
@@ -158,9 +156,27 @@ where {
 
     /// The text that is hashed for the signature, for a given dash-escaped cleartext.
     fn signed_text_of(csf_encoded_text: &str) -> String {
-        let unescaped = dash_unescape_and_trim(csf_encoded_text);
+        // Line endings are normalized line by line: a CR that is the last character of a line
+        // once its trailing blanks are removed is content, it must not pair up with the LF of
+        // that line's ending (the result would depend on LF vs. CR+LF line endings otherwise).
+        let mut out = String::new();
+        for line in csf_encoded_text.split_inclusive('\n') {
+            let line_end_len = if line.ends_with("\r\n") {
+                2
+            } else if line.ends_with('\n') {
+                1
+            } else {
+                0
+            };
+            let (content, _end) = line.split_at(line.len() - line_end_len);
 
-        normalize_lines(&unescaped, LineBreak::Crlf).to_string()
+            out += &dash_unescape_and_trim(content);
+            if line_end_len > 0 {
+                out += "\r\n";
+            }
+        }
+
+        out
     }
 
     /// The "cleartext framework"-encoded (i.e. dash-escaped) form of the message.
